@@ -91,6 +91,12 @@ def client_entry_points(v, pid, tier, seed, prefixes):
             elif pid == "C13" and "honest-answer-rejected" in viol["signature"]:
                 # a genuine answer that the server-side object verifies but the client, after JSON and HTTP, does not
                 v.violation("C13:genuine-answer-lost-on-the-wire:" + viol["signature"].split(":")[-1], viol["what"], viol["replay"])
+        if pid == "C02":
+            mism = model_compare(v, s, res)
+            v.coverage["model_vs_impl_mismatches_clientv"] = mism
+            if mism != "[]":
+                v.violation("C02:correspondence:clientv", "client.MembershipAutoVerify and its model (Balloon/AutoVerify.v: which versions the answer must carry, which published snapshots it is checked against) disagree on the calls with these indexes: %s" % mism[:300],
+                            dict(kind="correspondence", theorem="C02_auto_verify_sound is about Balloon/AutoVerify.v auto_verify; its correspondence with client/client.go MembershipAutoVerify no longer checks", mismatches=mism, seed=seed, tier=tier), no_input=True)
     finally:
         s.cleanup()
 
